@@ -456,6 +456,31 @@ def handle (j : Json) : Except String Json := do
       Json.arr #[jInt (u : Int), Json.arr ((C19.outOf a u).map fun e => Json.arr #[jInt (e.1 : Int), jInt e.2.1, Json.str e.2.2]).toArray]).toArray
     let states := (List.range n).map fun i => dumpAdj (C19.roundtrip (i + 1) a0)
     return Json.mkObj [("states", Json.arr states.toArray), ("nodup", Json.bool (decide a0.nodes.Nodup))]
+  | "c19.history" =>
+    let parseAdj (v : Json) : Except String (Nat × List (Nat × C19.Attr)) := do
+      let a ← getArr v
+      let outs ← (← getArr a[1]!).toList.mapM fun e => do
+        let b ← getArr e
+        return ((← getInt b[0]!).toNat, ((← getInt b[1]!, ← getStr b[2]!) : C19.Attr))
+      return ((← getInt a[0]!).toNat, outs)
+    let dumpAdj (a : C19.Adj) : Json := Json.arr (a.nodes.map fun (u : Nat) =>
+      Json.arr #[jInt (u : Int), Json.arr ((C19.outOf a u).map fun e => Json.arr #[jInt (e.1 : Int), jInt e.2.1, Json.str e.2.2]).toArray]).toArray
+    let ops ← (← getArr (← field j "ops")).toList.mapM fun v => do
+      let a ← getArr v
+      let kind ← getStr a[0]!
+      let dir ← getStr a[1]!
+      if kind == "save" then
+        let out ← (← getArr a[2]!).toList.mapM parseAdj
+        return C19.Op.save dir { nodes := out.map (·.1), out := out }
+      else
+        return C19.Op.restore dir
+    let (_, outs) := ops.foldl (fun (acc : C19.Store × List Json) op =>
+      let (s', r) := C19.step acc.1 op
+      match op, r with
+      | .restore _, some a => (s', acc.2 ++ [dumpAdj a])
+      | .restore _, none => (s', acc.2 ++ [Json.null])
+      | _, _ => (s', acc.2)) (([] : C19.Store), ([] : List Json))
+    return Json.mkObj [("restores", Json.arr outs.toArray)]
   | "c10" =>
     -- crit: the implementation's critical edges as [srcEv,srcStart,dstEv,dstStart]
     let rs ← rows (← field j "rows")
